@@ -133,10 +133,13 @@ def cext_triggers(b: bytes):
        set>=2     a tag-258 set with two or more elements (becomes a Python set: wire order lost, hash-seed dependent)
        set-frozen a tag-258 set (any size) with a map or another tag-258 set inside an element (elements are decoded as
                   immutable values: FrozenDict / frozenset, which the typed restoration refuses)
+       set-nested-array  a tag-258 set (any size) with an array nested inside an element's array (the element and everything in
+                  it arrive as tuples; hand-written from_primitive methods that accept only lists, e.g. DRep inside a
+                  certificate, refuse them)
        indef      an indefinite-length array, also inside #6.24 embedded CBOR (arrives as a plain list: framing lost)"""
     out = set()
 
-    def scan(x, inset):
+    def scan(x, inset, depth_in_elem=0):
         if isinstance(x, R.Tag):
             if x.tag == 258 and isinstance(x.value, list):
                 if len(x.value) >= 2:
@@ -144,7 +147,7 @@ def cext_triggers(b: bytes):
                 if inset:
                     out.add("set-frozen")
                 for v in x.value:
-                    scan(v, True)
+                    scan(v, True, 0)
                 return
             if x.tag == 24 and isinstance(x.value, bytes):
                 try:
@@ -158,8 +161,10 @@ def cext_triggers(b: bytes):
             for v in x:
                 scan(v, inset)
         elif isinstance(x, list):
+            if inset and depth_in_elem >= 1:
+                out.add("set-nested-array")
             for v in x:
-                scan(v, inset)
+                scan(v, inset, depth_in_elem + 1 if inset else 0)
         elif isinstance(x, R.Map):
             if inset:
                 out.add("set-frozen")
